@@ -718,6 +718,11 @@ class Monitors:
                     return
                 if isinstance(src, bytes):
                     src = src.decode("utf-8", "replace")
+                if mon._cur_fold is not None and isinstance(src, str) and fname in ("", "<string>", "<unknown>"):
+                    # text compiled during a fold by something other than util.strict_eval (eval / compile / ast.parse in the
+                    # fold itself): judged like any other evaluated text
+                    mon.evals.append({"site": site, "text": src, "entered": fname != "<unknown>", "fold": True,
+                                      "frontend": False, "compiled": True, "ok": True})
                 if len(mon.compiles) < 5000:
                     mon.compiles.append((site, str(src)[:300]))
             elif event == "exec":
